@@ -240,10 +240,6 @@ theorem C18_s3_roundtrip (db : Db) (objs : Objs) (reclaim : Bool) (order : List 
       have hin : k ∈ db.map.map (·.1) := List.mem_map.2 ⟨p, this, hpk⟩
       exact absurd hnone (by rw [AL.get?_none_iff_not_mem_keys]; exact fun h => h hin)
 
-/-- the live data of a loaded map: key ↦ (value, version), removed keys left out -/
-def liveView (m : KV) (k : Bytes) : Option (Bytes × Int) :=
-  (AL.get? m k).bind fun e => if e.state = .deleted then none else some (e.value, e.version)
-
 /-- **C18: the `s3` strategy restores what the disk strategy restores** — for every database with
 distinct keys and storable entries, whatever the object store and the disk held before, whatever
 the hash orders and clocks: both start-ups succeed and give the same live data, namely the
